@@ -273,6 +273,7 @@ const (
 	modeFull = iota
 	modeReduced
 	modeTiny
+	modeFullBase // like modeFull but always with the base (quick) value alphabet
 )
 
 func enumerateTypes(fam string, thorough bool) []typeItem {
@@ -318,7 +319,7 @@ func enumerateTypes(fam string, thorough bool) []typeItem {
 				if isComposite(b.Kind) {
 					continue
 				}
-				out = append(out, typeItem{fam, "L2full", &StructSpec{Fields: []FieldSpec{a, b}}, modeFull})
+				out = append(out, typeItem{fam, "L2full", &StructSpec{Fields: []FieldSpec{a, b}}, modeFullBase})
 			}
 		}
 	}
@@ -348,7 +349,9 @@ func validValue(kind string) *Node {
 var thoroughAtoms bool
 
 // atoms: the value alphabet, simplest first. nil stands for "key missing".
-func atoms() []*Node {
+func atoms() []*Node { return atomsOf(thoroughAtoms) }
+
+func atomsOf(extended bool) []*Node {
 	a := []*Node{
 		num("7"), nil, num("0"), num("-1"), num("2147483648"), num("1.5"), num("1.0"),
 		str("x"), str(""), str("7"), boolean(true), boolean(false), null(),
@@ -356,7 +359,7 @@ func atoms() []*Node {
 		obj(), obj(kv("k", num("7"))), obj(kv("K", num("7")), kv("k2", num("-1"))), obj(kv("k", str("x"))),
 		obj(kv("k", num("1.0"))), obj(kv("k", null())),
 	}
-	if thoroughAtoms {
+	if extended {
 		a = append(a,
 			num("1e3"), num("0.1"), num("255"), num("256"), num("9007199254740993"), num("9223372036854775807"),
 			num("-2147483649"), num("2.0e0"), num("123456789.125"),
@@ -423,6 +426,8 @@ func fieldValues(f FieldSpec, mode int) []*Node {
 		switch mode {
 		case modeFull:
 			return dedupe(append([]*Node{validValue(f.Kind)}, atoms()...))
+		case modeFullBase:
+			return dedupe(append([]*Node{validValue(f.Kind)}, atomsOf(false)...))
 		case modeReduced:
 			return reducedValues(f.Kind)
 		}
@@ -549,6 +554,9 @@ func topLevelDocs(it typeItem) []*Node {
 	n := 3
 	if it.Mode != modeFull {
 		n = 2
+	}
+	if it.Mode == modeFullBase {
+		n = 1
 	}
 	if it.Level == "L1c" {
 		n = 2
